@@ -270,6 +270,9 @@ func checkC05(c *Ctx) {
 			c.bad("OWN-physical-write", key, l.ipos(in), "a physical write is issued inside a logical operation: a stop right after it leaves part of the operation durable")
 		}
 	}
+	// ---- (3'') a prune interrupted between two physical writes: the version's own root goes with the first orphans
+	c.rule("PASS-orphans-deleted", "every orphan handed to the pruning callback, the version's own root included, is deleted", 1)
+	checkOrphansDeleted(c, "PASS-orphans-deleted")
 	// ---- (3a) repeating an interrupted prune relies on "version does not exist" being recognised and skipped
 	c.rule("ERR-E7-sentinel-path", "the 'version does not exist' decisions that let an interrupted prune be repeated can still be taken", 3)
 	{
@@ -368,6 +371,28 @@ func checkRekeyOrder(c *Ctx) {
 				}
 				if instrDominates(d, s) {
 					before = d
+				}
+			}
+			// … or a delete placed before the branch but made to run for the same condition (`a || b || referred`):
+			// a delete reachable from the holds-edge of ANY test of the controlling condition that goes on to reach the save
+			if before == nil && ctrl != nil {
+				if ci := ifOf(ctrl); ci != nil {
+					cv := stripTrivial(ci.Cond)
+					for _, b := range dv.Blocks {
+						iff := ifOf(b)
+						if iff == nil || b == ctrl || stripTrivial(iff.Cond) != cv {
+							continue
+						}
+						searchFrom([]point{blockStart(b.Succs[ctrlSucc])}, func(x ssa.Instruction) bool {
+							if x == ssa.Instruction(s) {
+								return true
+							}
+							if cc := callCommon(x); cc != nil && predStatic(dfp)(cc) && before == nil && reachesInstr(x, s) {
+								before = x
+							}
+							return false
+						})
+					}
 				}
 			}
 			msg := ""
